@@ -14,6 +14,7 @@ import A10Verif.Model.Pool
 import A10Verif.Model.SqRing
 import A10Verif.Model.Wake
 import A10Verif.Model.Blocked
+import A10Verif.Model.Teardown
 import A10Verif.Model.Bufs
 import A10Verif.Model.Composite
 import A10Verif.Model.ReadBuf
@@ -31,6 +32,7 @@ structure DriverState where
   sq : SqRing.St := SqRing.init 1 0 0
   wake : Wake.St := {}
   blk : Blocked.St := Blocked.init 1 0 0
+  teardown : Teardown.Driver := {}
   bufs : Bufs.St := Bufs.init
   readbuf : ReadBuf.St := ReadBuf.init
   inotify : Inotify.St := Inotify.init
@@ -43,6 +45,7 @@ def dispatch (st : DriverState) (toks : List String) : DriverState × List Strin
   | "inotify" :: _ => let (s, o) := Inotify.stepLine st.inotify toks; ({ st with inotify := s }, o)
   | "bufs" :: _ => let (s, o) := Bufs.stepLine st.bufs toks; ({ st with bufs := s }, o)
   | "composite" :: _ => (st, Composite.stepLine toks)
+  | "teardown" :: _ => let (s, o) := Teardown.stepLine st.teardown toks; ({ st with teardown := s }, o)
   | "blk" :: _ => let (s, o) := Blocked.stepLine st.blk toks; ({ st with blk := s }, o)
   | "wake" :: _ => let (s, o) := Wake.stepLine st.wake toks; ({ st with wake := s }, o)
   | "sq" :: _ => let (s, o) := SqRing.stepLine st.sq toks; ({ st with sq := s }, o)
